@@ -121,6 +121,23 @@ impl C08 {
         };
         let facts = crate::gen::gen_facts(rng, &cfg);
         let mut facts = drive::permute(&facts, OrderMode::Shuffled, rng);
+        // names at the limit of the one-byte length field (term and gene names: 240..=255 bytes)
+        if rng.chance(1, 3) {
+            let i = rng.usize_below(facts.terms.len());
+            if facts.terms[i].id != 1 && facts.terms[i].id != 118 {
+                let tail = *rng.pick(&["", "é", "€", "😀"]);
+                let total = *rng.pick(&[240usize, 246, 247, 248, 254, 255]);
+                facts.terms[i].name = format!("{}{tail}", "n".repeat(total - tail.len()));
+            }
+            if let Some(g) = facts.recs[0].first_mut() {
+                let total = *rng.pick(&[240usize, 246, 247, 254, 255]);
+                g.name = "G".repeat(total);
+            }
+            if let Some(d) = facts.recs[1].first_mut() {
+                d.name = "D".repeat(*rng.pick(&[255usize, 256, 300, 1000]));
+            }
+            out.bucket("layout/names_at_length_limit");
+        }
         // boundary contents at the END of sections: the last term / gene / disease record is as short as
         // a record can be (empty name, no terms) in a third of the files
         if rng.chance(1, 3) {
@@ -306,6 +323,7 @@ impl Monitor for C08 {
             "layout/v3",
             "layout/parent_records_only_for_terms_with_parents",
             "layout/minimal_last_records",
+            "layout/names_at_length_limit",
             "truncation_offsets_tried",
             "suffixes_tried",
             "version_bytes_tried",
